@@ -362,3 +362,62 @@ Example C12_ex_event_rate_fractional :
   zrange (count_frac 2 3 3 0 (ev_all cs)) 0 (n_windows (2 * 3) 3 (2 * 0) (2 * ev_end 0 cs)) = [1; 1; 1; 1; 1; 2; 2; 0; 0; 1; 1] /\
   counts_of (run (er_step true (2 * 3) (2 * 2)) None (map (scale_ev 2) cs)) = counts_of (run (er_step true 3 2) None cs).
 Proof. exact event_rate_fractional_ex. Qed.
+
+(* ================================================================== extension: event_rate behind pipeline.edges
+   pipeline.edges emits one Events block per chunk whose events may lie AT OR AFTER the block's end (a rising edge is
+   reported when it is confirmed, min_samples late; a falling edge immediately) but never before its start: a CAUSAL
+   stream ([causal] in Stages/Spec.v).  The in-span streams of the theorems above are the special case
+   C12_ev_stream_any_causal.  The repaired event_rate (fix-C12-er: the left-over is trimmed on the left only) counts
+   every event of every causal stream in the windows of the whole stream, for every chunking and every assignment of
+   the events to blocks; the code before that repair ([er_step_unrepaired]) lost events reported ahead of the span. *)
+From Coq Require Import Permutation.
+From PV Require Import Stages.ProofsER.
+
+Theorem C12_ev_stream_any_causal : forall cs lo, ev_stream_any lo cs -> causal lo cs.
+Proof. exact ev_stream_any_causal. Qed.
+Print Assumptions C12_ev_stream_any_causal.
+Theorem C12_event_rate_causal : forall bsz stp lo (cs : list events),
+  0 <= bsz -> 1 <= stp -> cs <> [] -> causal lo cs ->
+  exists st outs, run (er_step true bsz stp) None cs = Some (st, outs) /\
+    concat (map r_counts outs) =
+      zrange (fun k => count_in (ev_all cs) (lo + k * stp) (lo + k * stp + bsz)) 0 (n_windows bsz stp lo (ev_end lo cs)) /\
+    r_contiguous (2 * lo + bsz) stp outs.
+Proof. exact event_rate_causal. Qed.
+Print Assumptions C12_event_rate_causal.
+Theorem C12_event_rate_causal_spec : forall bsz stp lo (cs : list events),
+  0 <= bsz -> 1 <= stp -> cs <> [] -> causal lo cs ->
+  exists st outs, run (er_step true bsz stp) None cs = Some (st, outs) /\
+    concat (map r_counts outs) = event_rates bsz stp (ev_all cs) lo (ev_end lo cs) /\
+    r_contiguous (2 * lo + bsz) stp outs.
+Proof. exact event_rate_causal_spec. Qed.
+Print Assumptions C12_event_rate_causal_spec.
+Theorem C12_event_rate_causal_chunk_invariant : forall bsz stp lo (cs1 cs2 : list events),
+  0 <= bsz -> 1 <= stp -> cs1 <> [] -> cs2 <> [] -> causal lo cs1 -> causal lo cs2 ->
+  Permutation (ev_all cs1) (ev_all cs2) -> ev_end lo cs1 = ev_end lo cs2 ->
+  exists st1 o1 st2 o2,
+    run (er_step true bsz stp) None cs1 = Some (st1, o1) /\
+    run (er_step true bsz stp) None cs2 = Some (st2, o2) /\
+    concat (map r_counts o1) = concat (map r_counts o2).
+Proof. exact event_rate_causal_chunk_invariant. Qed.
+Print Assumptions C12_event_rate_causal_chunk_invariant.
+(* the Events blocks edges(3, .., initial_state=0, detect='rising') emits for ([0]*5+[1]*5)*6 cut into 8, 10, 42 samples
+   (the edges at 5 and 15 are reported with sample == end of their block) and in one chunk; block_size = block_step = 10 *)
+Example C12_ex_event_rate_causal :
+  causal (-3) er_ahead_chunked /\ causal (-3) er_ahead_whole /\ ~ ev_stream_any (-3) er_ahead_chunked /\
+  Permutation (ev_all er_ahead_chunked) (ev_all er_ahead_whole) /\
+  ev_end (-3) er_ahead_chunked = ev_end (-3) er_ahead_whole /\
+  counts_of (run (er_step true 10 10) None er_ahead_chunked) = Some [[1]; [1; 1; 1; 1]] /\
+  counts_of (run (er_step true 10 10) None er_ahead_whole) = Some [[1; 1; 1; 1; 1]] /\
+  zrange (fun k => count_in (ev_all er_ahead_whole) (-3 + k * 10) (-3 + k * 10 + 10)) 0
+         (n_windows 10 10 (-3) (ev_end (-3) er_ahead_whole)) = [1; 1; 1; 1; 1].
+Proof. exact event_rate_causal_ex. Qed.
+(* the code before the repair: the same event multiset on the same timeline, two chunkings, different counts *)
+Theorem C12_event_rate_causal_unrepaired_refuted : exists (bsz stp lo : Z) (cs1 cs2 : list events),
+  0 <= bsz /\ 1 <= stp /\ cs1 <> [] /\ cs2 <> [] /\ causal lo cs1 /\ causal lo cs2 /\
+  Permutation (ev_all cs1) (ev_all cs2) /\ ev_end lo cs1 = ev_end lo cs2 /\
+  exists st1 o1 st2 o2,
+    run (er_step_unrepaired true bsz stp) None cs1 = Some (st1, o1) /\
+    run (er_step_unrepaired true bsz stp) None cs2 = Some (st2, o2) /\
+    concat (map r_counts o1) = [1; 0; 1; 1; 1] /\ concat (map r_counts o2) = [1; 1; 1; 1; 1].
+Proof. exact event_rate_causal_unrepaired_refuted. Qed.
+Print Assumptions C12_event_rate_causal_unrepaired_refuted.
